@@ -6,7 +6,7 @@
   kinds, arrays, negation and arithmetic are rejected, at top level and in every checked position of a
   (nested) conditional.  All theorems hold for every number implementation and every environment.
 -/
-import SlacModel.Validate
+import SlacProofs.ValidateLemmas
 import SlacProps.C03
 set_option autoImplicit false
 set_option linter.unusedSectionVars false
@@ -22,17 +22,12 @@ def resultPos : Expr N → List (Expr N)
   | .call n ps => [.call n ps]
   | _ => []
 
-theorem andThen_ok {a b : Except VErr Unit} (h : VErr.andThen a b = .ok ()) : a = .ok () ∧ b = .ok () := by
-  cases a with
-  | ok u => cases u; exact ⟨rfl, h⟩
-  | error e => cases h
-
 /-- acceptance of a conditional means acceptance of condition and both branches, and the operator is `?:` -/
 theorem checkBool_ternary {l m r : Expr N} {op : Op} (h : checkBool (.ternary l m r op) = .ok ()) :
     op = .ternaryCondition ∧ checkBool l = .ok () ∧ checkBool m = .ok () ∧ checkBool r = .ok () := by
   cases op <;> simp only [checkBool] at h <;> first | cases h | skip
-  obtain ⟨h1, h3⟩ := andThen_ok h
-  obtain ⟨h1, h2⟩ := andThen_ok h1
+  obtain ⟨h1, h3⟩ := VErr.andThen_ok h
+  obtain ⟨h1, h2⟩ := VErr.andThen_ok h1
   exact ⟨rfl, h1, h2, h3⟩
 
 theorem checkBool_binary {l r : Expr N} {op : Op} (h : checkBool (.binary l r op) = .ok ()) : op ∈ boolOps := by
